@@ -44,6 +44,9 @@ type Case struct {
 	Note  string `json:"note,omitempty"`
 	// ProcLevel: the outcome was observed on the real binary; "reports" are stderr lines.
 	ProcLevel bool `json:"proc_level,omitempty"`
+	// Sched, if non-zero, is the seed of the schedule under which the tool's own goroutines run
+	// (scheduled leg: cmd/pql instrumented like the library is for C14).
+	Sched uint64 `json:"sched,omitempty"`
 }
 
 type caseJSON struct {
@@ -53,6 +56,7 @@ type caseJSON struct {
 	Multi     bool       `json:"multi"`
 	Note      string     `json:"note,omitempty"`
 	ProcLevel bool       `json:"proc_level,omitempty"`
+	Sched     uint64     `json:"sched,omitempty"`
 }
 
 // MarshalJSON writes the input both as base64 (authoritative) and quoted text (for reading).
@@ -68,6 +72,7 @@ func (c Case) MarshalJSON() ([]byte, error) {
 		Multi:     c.Multi,
 		Note:      c.Note,
 		ProcLevel: c.ProcLevel,
+		Sched:     c.Sched,
 	})
 }
 
@@ -81,7 +86,7 @@ func (c *Case) UnmarshalJSON(b []byte) error {
 	if err != nil {
 		return err
 	}
-	c.Input, c.Files, c.Multi, c.Note, c.ProcLevel = in, j.Files, j.Multi, j.Note, j.ProcLevel
+	c.Input, c.Files, c.Multi, c.Note, c.ProcLevel, c.Sched = in, j.Files, j.Multi, j.Note, j.ProcLevel, j.Sched
 	total := 0
 	for _, f := range c.Files {
 		total += f.Len
@@ -94,7 +99,7 @@ func (c *Case) UnmarshalJSON(b []byte) error {
 
 // Clone returns a deep copy.
 func (c Case) Clone() Case {
-	d := Case{Input: append([]byte(nil), c.Input...), Multi: c.Multi, Note: c.Note, ProcLevel: c.ProcLevel}
+	d := Case{Input: append([]byte(nil), c.Input...), Multi: c.Multi, Note: c.Note, ProcLevel: c.ProcLevel, Sched: c.Sched}
 	for _, f := range c.Files {
 		d.Files = append(d.Files, FileSpec{Len: f.Len, Steps: append([]Step(nil), f.Steps...)})
 	}
@@ -130,17 +135,20 @@ func (c Case) ErrK() int {
 
 // Outcome is what one execution of run produced.
 type Outcome struct {
-	Stdout     string `json:"stdout"`
-	Sink       int    `json:"sink_calls"`
+	Stdout     string   `json:"stdout"`
+	Sink       int      `json:"sink_calls"`
 	SinkMsgs   []string `json:"sink_msgs,omitempty"`
-	RetErr     string `json:"ret_err"` // "" = nil
-	ExtraReads int    `json:"reads_after_end"`
-	Reads      int    `json:"reads"`
-	Writes     int    `json:"writes"`
-	Panic      string `json:"panic,omitempty"`
+	RetErr     string   `json:"ret_err"` // "" = nil
+	ExtraReads int      `json:"reads_after_end"`
+	Reads      int      `json:"reads"`
+	Writes     int      `json:"writes"`
+	Panic      string   `json:"panic,omitempty"`
 	// Hang: run had not returned when the wall-clock watchdog expired.
 	Hang bool `json:"hang,omitempty"`
-	Closes     []int  `json:"closes,omitempty"`
+	// SchedOutcome: "" (returned), "deadlock", "budget" or "stuck" — scheduled leg only.
+	SchedOutcome string `json:"sched_outcome,omitempty"`
+	SchedDetail  string `json:"sched_detail,omitempty"`
+	Closes       []int  `json:"closes,omitempty"`
 }
 
 // PlanString renders the read plan compactly: per file "len:[n n*k 0 n+ERR ...]".
